@@ -2,7 +2,7 @@
 """Regenerates coq/Gen/FontTable.v from the tree under test (EG_REPO, default /repo):
 
   * every `pub const FONT_*` of src/mono_font/generated/*.rs -> one `bfont` row: name "<module>::<CONST>",
-    byte length of the include_bytes! file, mapping id, image size, character size, spacing, baseline,
+    byte length and bitmap digest (FNV-1a over the rows) of the include_bytes! file, mapping id, image size, character size, spacing, baseline,
     underline and strikethrough (offset, height) with the constant expressions (`4 + 2`, `13 / 2`) evaluated
     in u32 arithmetic;
   * every mapping of the `impl_mapping!` table in src/mono_font/mapping.rs -> one `bmapping` row: name, the
@@ -189,6 +189,24 @@ FONT_RE = re.compile(
     r'\};')
 
 
+def bitmap_digest(path, w, h, where):
+    """FNV-1a 64 (low 60 bits) over the rows of the 1 bpp atlas, padding bits of each row masked to 0.
+    The harness recomputes the same number from font.image.pixel() of the running library (c14_bi)."""
+    data = open(path, 'rb').read()
+    bpr = (w + 7) // 8
+    if len(data) < bpr * h:
+        return 0          # wrong length: reported by the builtin_atlas_length proof
+    mask = 0xFF if w % 8 == 0 else (0xFF << (8 - w % 8)) & 0xFF
+    hsh = 0xcbf29ce484222325
+    for y in range(h):
+        row = data[y * bpr:(y + 1) * bpr]
+        for k, byte in enumerate(row):
+            if k == bpr - 1:
+                byte &= mask
+            hsh = ((hsh ^ byte) * 0x100000001b3) & 0xFFFFFFFFFFFFFFFF
+    return hsh & ((1 << 60) - 1)
+
+
 def read_fonts(mapping_names):
     gdir = os.path.join(REPO, 'src', 'mono_font', 'generated')
     files = sorted(f for f in glob.glob(os.path.join(gdir, '*.rs')) if os.path.basename(f) != 'mod.rs')
@@ -218,7 +236,7 @@ def read_fonts(mapping_names):
             if m.group(5) not in mapping_names:
                 die('%s: unknown mapping %s' % (where, m.group(5)))
             vals = [ev(m.group(k), where) for k in (3, 4, 6, 7, 8, 9, 10, 11, 12, 13)]
-            rows.append((where, os.path.getsize(raw), mapping_names.index(m.group(5)), vals))
+            rows.append((where, os.path.getsize(raw), mapping_names.index(m.group(5)), vals, bitmap_digest(raw, vals[0], vals[1], where)))
     return rows
 
 
@@ -250,12 +268,12 @@ def main():
     L.append('')
     L.append('Definition mappings : list bmapping := [%s].' % '; '.join('map_' + n for n in names))
     L.append('')
-    L.append('(* BFont name rawlen mapping (Font image_w image_h char_w char_h spacing baseline (Deco ul_off ul_h) (Deco st_off st_h)) *)')
+    L.append('(* BFont name rawlen bitmap_digest mapping (Font image_w image_h char_w char_h spacing baseline (Deco ul_off ul_h) (Deco st_off st_h)) *)')
     L.append('Definition fonts : list bfont := [')
     rows = []
-    for where, rawlen, mi, v in fonts:
-        rows.append('  (* %s *) BFont %s %d %d (Font %d %d %d %d %d %d (Deco %d %d) (Deco %d %d))' % (
-            where, name_codes(where), rawlen, mi, v[0], v[1], v[2], v[3], v[4], v[5], v[6], v[7], v[8], v[9]))
+    for where, rawlen, mi, v, dig in fonts:
+        rows.append('  (* %s *) BFont %s %d %d %d (Font %d %d %d %d %d %d (Deco %d %d) (Deco %d %d))' % (
+            where, name_codes(where), rawlen, dig, mi, v[0], v[1], v[2], v[3], v[4], v[5], v[6], v[7], v[8], v[9]))
     L.append(';\n'.join(rows))
     L.append('].')
     L.append('')
@@ -264,6 +282,17 @@ def main():
     if not os.path.exists(OUT) or open(OUT).read() != txt:
         open(OUT, 'w').write(txt)
     print('gen_fonts: %d fonts, %d mappings, replacement index %d' % (len(fonts), len(maps), repl))
+    if '--golden' in sys.argv:
+        # deliberate refresh of the COMMITTED bitmap reference (never done by ./check or setup.sh)
+        G = ['(* COMMITTED reference: FNV-1a digest of the glyph bitmap (fonts/raw file) of every built-in font.',
+             '   Gen/FontTable.v carries the digests of the tree under test (regenerated on every run); Proofs/Fontbuiltin.v proves',
+             '   they are equal, so a changed, swapped or corrupted bitmap file breaks a proof.',
+             '   Regenerate ONLY after a deliberate font change: python3 translate/gen_fonts.py --golden *)',
+             'From EG Require Import Base.Prelude.', '', 'Definition golden_bitmaps : list (list Z * Z) := [']
+        G.append(';\n'.join('  (* %s *) (%s, %d)' % (w, name_codes(w), dig) for w, _, _, _, dig in fonts))
+        G.append('].')
+        open(os.path.join(HERE, '..', 'coq', 'Proofs', 'FontGolden.v'), 'w').write('\n'.join(G) + '\n')
+        print('gen_fonts: wrote coq/Proofs/FontGolden.v')
 
 
 main()
